@@ -62,7 +62,15 @@ def gen_case(rnd, thorough, i):
         grids.append([dt * j for j in range(T)])
     meas = rnd.sample(["A", "B", "C"], rnd.randint(1, 3))
     noise = [[[float("%.3g" % rnd.gauss(0, 0.4)) for _ in meas] for _ in range(T)] for _ in range(N)]
-    prior = {p: rand_prior(rnd, true[p]) for p in est}
+    # dictionary key orders are independent of the listing orders (prior keys vs params_to_estimate, species in an initial
+    # condition vs the model's species order)
+    pest = list(est)
+    rnd.shuffle(pest)
+    prior = {p: rand_prior(rnd, true[p]) for p in pest}
+    for n_ in range(N):
+        ks = list(x0s[n_])
+        rnd.shuffle(ks)
+        x0s[n_] = {k_: x0s[n_][k_] for k_ in ks}
     k = rnd.randint(6, 14) if not thorough else rnd.randint(10, 30)
     thetas = []
     for _ in range(k):
